@@ -29,6 +29,10 @@ pub fn enc_from(s: &str) -> TextEncoding {
     }
 }
 
+thread_local! {
+    static LAST_PANIC_AT: std::cell::RefCell<String> = std::cell::RefCell::new(String::new());
+}
+
 pub fn panic_msg(p: Box<dyn std::any::Any + Send>) -> String {
     let s = if let Some(s) = p.downcast_ref::<&str>() {
         s.to_string()
@@ -37,14 +41,24 @@ pub fn panic_msg(p: Box<dyn std::any::Any + Send>) -> String {
     } else {
         "?".to_string()
     };
-    format!("panic:{}", enc::safe_str(&s.chars().take(120).collect::<String>()))
+    // the source location recorded by the hook: "<file under rust/>:<line>"
+    let at = LAST_PANIC_AT.with(|l| l.borrow().clone());
+    format!("panic:{} {}", at, enc::safe_str(&s.chars().take(100).collect::<String>()))
 }
 
 pub fn silence_panics() {
-    if std::env::var("AMV_LOUD").is_ok() {
-        return;
-    }
-    std::panic::set_hook(Box::new(|_| {}));
+    let loud = std::env::var("AMV_LOUD").is_ok();
+    let default = std::panic::take_hook();
+    std::panic::set_hook(Box::new(move |info| {
+        if let Some(l) = info.location() {
+            let f = l.file();
+            let f = f.rsplit_once("/rust/").map(|x| x.1).unwrap_or(f);
+            LAST_PANIC_AT.with(|x| *x.borrow_mut() = format!("{}:{}", f, l.line()));
+        }
+        if loud {
+            default(info);
+        }
+    }));
 }
 
 #[derive(Clone, Copy, PartialEq, Eq, Debug)]
@@ -74,6 +88,9 @@ pub struct World {
     /// number actors downwards (k -> 18 - k) so that every new actor sorts BEFORE the existing ones
     /// in the documents' actor tables (C30)
     pub desc_actors: bool,
+    /// use actor bytes 0x20 + k: isolation actors (13 b2 23 09 ..) then sort BEFORE the replicas' own
+    /// actors, so minting / dropping one shifts every index of the actor table (C30)
+    pub hi_actors: bool,
 }
 
 impl World {
@@ -91,6 +108,7 @@ impl World {
             cursors: vec![],
             idreg: vec![],
             desc_actors: false,
+            hi_actors: false,
         };
         w.log.push(json!({"ev":"reset","enc":enc_name(enc),"scn":scenario,"family":family}));
         w
@@ -169,7 +187,8 @@ impl World {
     }
 
     fn amap(&self, actor: u8) -> u8 {
-        if self.desc_actors && actor < 18 { 18 - actor } else { actor }
+        let a = if self.desc_actors && actor < 18 { 18 - actor } else { actor };
+        if self.hi_actors { 0x20 + a } else { a }
     }
 
     pub fn add_rep(&mut self, actor: u8) -> usize {
@@ -177,7 +196,7 @@ impl World {
         let d = Automerge::new_with_encoding(self.enc).with_actor(ActorId::from(vec![actor]));
         self.reps.push(d);
         let r = self.reps.len() - 1;
-        let ev = json!({"ev":"newrep","r":r+1,"actor":actor as i64,"res":"ok"});
+        let ev = json!({"ev":"newrep","r":r+1,"actor":enc::actor_num(&ActorId::from(vec![actor])),"res":"ok"});
         self.guarded(r, ev, |_| json!({}));
         r
     }
@@ -367,7 +386,7 @@ impl World {
         let d = self.reps[from].fork().with_actor(ActorId::from(vec![actor]));
         self.reps.push(d);
         let r = self.reps.len() - 1;
-        let ev = json!({"ev":"fork","r":r+1,"from":from+1,"actor":actor as i64,"res":"ok"});
+        let ev = json!({"ev":"fork","r":r+1,"from":from+1,"actor":enc::actor_num(&ActorId::from(vec![actor])),"res":"ok"});
         self.guarded(r, ev, |_| json!({}));
         r
     }
@@ -378,7 +397,7 @@ impl World {
             Ok(d) => {
                 self.reps.push(d.with_actor(ActorId::from(vec![actor])));
                 let r = self.reps.len() - 1;
-                let ev = json!({"ev":"forkat","r":r+1,"from":from+1,"heads":enc::hashes_sorted(heads),"actor":actor as i64,"res":"ok"});
+                let ev = json!({"ev":"forkat","r":r+1,"from":from+1,"heads":enc::hashes_sorted(heads),"actor":enc::actor_num(&ActorId::from(vec![actor])),"res":"ok"});
                 self.guarded(r, ev, |_| json!({}));
                 Some(r)
             }
@@ -392,7 +411,7 @@ impl World {
 
     pub fn set_actor(&mut self, r: usize, actor: u8) {
         let actor = self.amap(actor);
-        let ev = json!({"ev":"setactor","r":r+1,"actor":actor as i64,"res":"ok"});
+        let ev = json!({"ev":"setactor","r":r+1,"actor":enc::actor_num(&ActorId::from(vec![actor])),"res":"ok"});
         self.guarded(r, ev, |w| {
             w.reps[r].set_actor(ActorId::from(vec![actor]));
             json!({})
